@@ -16,9 +16,11 @@ from harness.common import REJECT, xb, unx, batch_parallel, pmap
 
 PROPERTY = "C01"
 DRIVERS = ["drv_c01"]
+PROPS_MODULES = ["Buidl.Props.C01", "Buidl.Props.C01Message"]
 ANCHORS = [
     ("buidl/pecc.py", "PrivateKey.__init__"), ("buidl/pecc.py", "PrivateKey.parse"), ("buidl/pecc.py", "PrivateKey.wif"), ("buidl/pecc.py", "PrivateKey.deterministic_k"),
     ("buidl/pecc.py", "PrivateKey.sign"), ("buidl/pecc.py", "S256Point.verify"),
+    ("buidl/pecc.py", "PrivateKey.sign_message"), ("buidl/pecc.py", "S256Point.verify_message"),
     ("buidl/pecc.py", "Signature.der"), ("buidl/pecc.py", "Signature.parse"),
     ("buidl/pecc.py", "S256Point.__rmul__"), ("buidl/pecc.py", "Point.__rmul__"), ("buidl/pecc.py", "Point.__add__"),
     ("buidl/pecc.py", "S256Point.parse"), ("buidl/pecc.py", "S256Point.parse_sec"),
@@ -40,6 +42,14 @@ RULE = ("secrets and digests: the quantifier's boundary list (1, 2, 3, n-1, n-2,
         "and RFC 6979 / low-S specification.  A case is non-trivial "
         "when it is not rejected by a range/length check alone; distinct = distinct request lines")
 CLAUSES = {
+    "verification true exactly when the ECDSA equation holds — the case x(u1*G + u2*Q) in [n, p)":
+        "partial(known finding F01d): verify compares x(R) with r without reducing modulo n; verify_complete is "
+        "proved under the explicit hypothesis x(R) < n; a tuple with x(R) = r + n (constructed on every run: R with "
+        "x(R) in [n, p), Q = (x-n)^-1 (sR - zG)) satisfies the specification's predicate and is refused",
+    "message signing (sign_message / verify_message: digest = big-endian hash256 of the message)":
+        "proved relative to hash256 (message_functions_use_one_digest, verify_message_sign_message, "
+        "verify_message_sound, verify_message_out_of_range, sign_message_lowS); the digest is checked against hashlib on every run (signmsg / "
+        "verifymsg stream, msg_sign_verify predicate)",
     "signature is the deterministic RFC 6979 signature":
         "proved (deterministicK_rfc6979, deterministicK_fuel, deterministicK_range, deterministicK_N); the signing "
         "equation is the model's signWith by correspondence",
@@ -118,6 +128,12 @@ def _impl(t):
         return f"{sig.r} {sig.s}"
     if op in ("verify", "spec_valid"):
         ok = _point(t[1]).verify(int(t[2]), E.Signature(int(t[3]), int(t[4])))
+        return "1" if ok is True else REJECT
+    if op == "signmsg":
+        sig = mk_key(int(t[1]), cfg).sign_message(unx(t[2]))
+        return f"{sig.r} {sig.s}"
+    if op == "verifymsg":
+        ok = _point(t[1]).verify_message(unx(t[2]), E.Signature(int(t[3]), int(t[4])))
         return "1" if ok is True else REJECT
     if op == "der":
         return xb(E.Signature(int(t[1]), int(t[2])).der())
@@ -244,6 +260,24 @@ def p_small_s_valid(c):
 
 
 PREDICATES = {"small_s_valid": p_small_s_valid, "sign_verify": p_sign_verify, "must_reject": p_must_reject, "der_roundtrip": p_der_rt}
+
+
+def p_msg_sign_verify(c):
+    """sign_message then verify_message on the same message accepts; on another message refuses; the signature is
+    the one `sign` gives for the hashlib digest"""
+    import hashlib
+    import buidl.ecc as E
+    d, m = c["d"], unx(c["m"])
+    pk = E.PrivateKey(d)
+    sig = pk.sign_message(m)
+    z = int.from_bytes(hashlib.sha256(hashlib.sha256(m).digest()).digest(), "big")
+    ref = E.PrivateKey(d).sign(z)
+    got = [pk.point.verify_message(m, sig) is True, pk.point.verify_message(m + b"x", sig) is True,
+           (sig.r, sig.s) == (ref.r, ref.s), pk.point.verify(z, sig) is True]
+    return got == [True, False, True, True], got, [True, False, True, True]
+
+
+PREDICATES["msg_sign_verify"] = p_msg_sign_verify
 
 
 def eval_pred(kind, case=None):
@@ -381,6 +415,28 @@ def run(ctx):
         for s0 in (N // 2, N // 2 + 1, 2**255, rng.randrange(1, N)):
             z = (s0 * k - r * d) % N
             lines.append(("signwith", f"signwith {k} {d} {z}", True))
+    # message signing: sign_message / verify_message use z = big-endian hash256(message); the expected signature
+    # comes from the model driver on a digest computed with hashlib (independent of buidl.helper.hash256)
+    import hashlib as _hl
+    MSGS = [b"", b"\x00", b"a", b"Hello, world", bytes(32), bytes(range(64)), b"\xff" * 55, b"\x80" + bytes(63)] + \
+        [bytes(rng.getrandbits(8) for _ in range(rng.choice([1, 31, 32, 33, 55, 56, 64, 100]))) for _ in range(ctx.n(8))]
+    mpairs = [(rng.choice([1, 2, N - 1, rng.randrange(1, N), rng.randrange(1, N)]), m) for m in MSGS]
+    zs = [int.from_bytes(_hl.sha256(_hl.sha256(m).digest()).digest(), "big") for _, m in mpairs]
+    msigs = drv.batch([f"sign {d} {z}" for (d, _), z in zip(mpairs, zs)])
+    for (d, m), z, sg in zip(mpairs, zs, msigs):
+        lines.append(("signmsg", f"signmsg {d} {xb(m)}", True))
+        if sg in (REJECT, "FUEL"):
+            continue
+        r, sv = sg.split(" ")
+        sec = xb((d * E.G).sec(len(m) % 2 == 0))
+        lines.append(("verifymsg:valid", f"verifymsg {sec} {xb(m)} {r} {sv}", True))
+        lines.append(("verifymsg:other_message", f"verifymsg {sec} {xb(m + b'!')} {r} {sv}", True))
+        lines.append(("verifymsg:other_message", f"verifymsg {sec} {xb(b'\x00' + m)} {r} {sv}", True))
+        lines.append(("verifymsg:s+n", f"verifymsg {sec} {xb(m)} {r} {int(sv) + N}", True))
+        lines.append(("verifymsg:digest_as_message", f"verifymsg {sec} {xb(z.to_bytes(32, 'big'))} {r} {sv}", True))
+        preds.append(("msg_sign_verify", {"d": d, "m": xb(m)}))
+    for d in BAD_SECRETS[:2]:
+        lines.append(("signmsg_bad_secret", f"signmsg {d} x00", True))
     lines.append(("signwith_k0", f"signwith 0 5 7", False))
     lines.append(("signwith_kN", f"signwith {N} 5 7", False))
 
@@ -420,6 +476,49 @@ def run(ctx):
             lines.append(("verify:" + name, f"verify {sec} {z} {r_} {s_}", True))
             lines.append(("spec_valid:" + name, f"spec_valid {sec} {z} {r_} {s_}", True))
             preds.append(("must_reject", {"pt": sec, "z": z, "r": r_, "s": s_, "why": name}))
+    # r in [n, p) that IS the x coordinate of a curve point, with a key constructed so that the ECDSA equation
+    # holds for r mod n: only the range rule makes the tuple invalid (hand-written affine arithmetic, no library code)
+    P_, G_ = 2**256 - 2**32 - 977, (E.G.x.num, E.G.y.num)
+
+    def _add(p, q):
+        if p is None or q is None:
+            return q if p is None else p
+        (x1, y1), (x2, y2) = p, q
+        if x1 == x2 and (y1 + y2) % P_ == 0:
+            return None
+        lam = (3 * x1 * x1 * pow(2 * y1, P_ - 2, P_) if p == q else (y2 - y1) * pow(x2 - x1, P_ - 2, P_)) % P_
+        x3 = (lam * lam - x1 - x2) % P_
+        return x3, (lam * (x1 - x3) - y1) % P_
+
+    def _mul(k, p):
+        k %= N
+        acc = None
+        while k:
+            if k & 1:
+                acc = _add(acc, p)
+            p = _add(p, p)
+            k >>= 1
+        return acc
+
+    xs, x = [], N + 1 + (rng.randrange(0, 2**100) if ctx.seed else 0)
+    while len(xs) < 3:
+        rhs = (pow(x, 3, P_) + 7) % P_
+        y = pow(rhs, (P_ + 1) // 4, P_)
+        if y * y % P_ == rhs and x < P_:
+            xs.append((x, y))
+        x += 1
+    for x, y in xs:
+        for s_, z_ in ((rng.randrange(1, N), rng.getrandbits(256)), (N - 5, 0)):
+            zg = _mul(z_, G_)
+            Q = _mul(pow(x - N, N - 2, N), _add(_mul(s_, (x, y)), None if zg is None else (zg[0], (P_ - zg[1]) % P_)))
+            if Q is None:
+                continue
+            sec = xb(b"\x04" + Q[0].to_bytes(32, "big") + Q[1].to_bytes(32, "big"))
+            lines.append(("verify:r_xcoord_ge_n", f"verify {sec} {z_} {x} {s_}", True))
+            lines.append(("spec_valid:r_xcoord_ge_n", f"spec_valid {sec} {z_} {x} {s_}", True))
+            lines.append(("verify:r_xcoord_mod_n", f"verify {sec} {z_} {x - N} {s_}", True))
+            lines.append(("spec_valid:r_xcoord_mod_n", f"spec_valid {sec} {z_} {x - N} {s_}", True))
+            preds.append(("must_reject", {"pt": sec, "z": z_, "r": x, "s": s_, "why": "r in [n, p) is an x coordinate"}))
     # the point at infinity and an undecodable key as public key
     lines.append(("verify:inf_key", f"verify x {rng.getrandbits(256)} {rng.randrange(1, N)} {rng.randrange(1, N)}", False))
     lines.append(("verify:bad_key", f"verify x05{'11' * 32} 1 1 1", True))
@@ -582,8 +681,14 @@ def run(ctx):
             rec.note(f"model ran out of fuel on {line[:200]}")
         trivial = impl == REJECT and kind.split(":")[-1] in ("s+n", "r+n", "r=0", "s=0", "r=n", "s=n", "r=2^256-1", "s=2^256-1", "n-s+n")
         base = kind.split(":")[0]
+        fid = None
+        if kind == "spec_valid:r_xcoord_mod_n":
+            # F01d (known): S256Point.verify compares x(R) with r without reducing x(R) modulo n, so a tuple that
+            # satisfies the ECDSA equation with x(R) in [n, p) is refused (verify_complete carries x(R) < n)
+            fid = "F01d"
+            rec.finding("F01d", impl == REJECT and model == "1", {"line": line, "oracle": "spec", "impl": impl, "spec": model})
         if rec.compare(base, {"line": line}, impl, model, determined=det, key=line[:400], nontrivial=not trivial,
-                       note=kind):
+                       note=kind, finding=fid):
             rec.sample(base, {"request": line[:300], "answer": model[:200]})
         if kind != base:
             rec.count(kind)
